@@ -693,6 +693,10 @@ bool GlobalGraph::isDA() const
   GlobalGraph gg(*this);
 
   gg.observers_.clear();
+  // a graph without node has no cycle
+  if (gg.getNumberOfNodes() == 0)
+    return true;
+
   // Algo: remove recursively all nodes with no sons from graph
 
   std::vector<Graph::NodeId> vL;
